@@ -127,77 +127,62 @@ def check(prog, run):
 
 
 def writer_reader(prog, run, reads):
+    """axis-role interpretation of SD_svalsvec (sa/axisdom.py): whatever the spelling (per-line loop, batched decomposition, stacking),
+    the returned vector array must carry (vector number, component, line) with conjugated left singular vectors, the value array the
+    singular values of the SAME decomposition with the line axis last; the readers must index the vector axis with a number and
+    take the whole component axis"""
+    from .. import axisdom
     w = prog.func(SVD)
     fw = rel(prog.mods[w.mod].path)
-    # stores into the returned arrays inside the per-line loop
-    rets = [n for n in ast.walk(w.node) if isinstance(n, ast.Return) and isinstance(n.value, ast.Tuple)]
-    if not rets:
+    pos = astq.params_of(w.node)[0]
+    it = axisdom.Interp(prog, w, {pos[0]: ("row", "col", "line")})
+    rets = it.run()
+    tup = [(v, n) for v, n in rets if isinstance(v, list) and len(v) >= 2]
+    if not tup:
         raise AnalysisError("anchor lost: SD_svalsvec return")
-    val_name, vec_name = [e.id if isinstance(e, ast.Name) else None for e in rets[-1].value.elts[:2]]
-    stores = {}
-    for n in ast.walk(w.node):
-        if isinstance(n, ast.Assign) and isinstance(n.targets[0], ast.Subscript) and isinstance(n.targets[0].value, ast.Name):
-            stores.setdefault(n.targets[0].value.id, []).append(n)
+    (val, vec), rnode = tup[-1][0][:2], tup[-1][1]
     layout = None
-    svd_calls = set()
-    if vec_name in stores:
-        st = stores[vec_name][0]
-        x = astq.expr_at(w, st, st.value)
-        # conj-transpose of svd(..)[0]
-        has_T = any(isinstance(a, ast.Attribute) and a.attr in ("T", "H") for a in ast.walk(x)) or any(isinstance(c, ast.Call) and astq.callee_name(prog, w, c) in ("numpy.transpose", ".transpose") for c in ast.walk(x))
-        has_conj = any(isinstance(c, ast.Call) and astq.callee_name(prog, w, c) in (".conj", ".conjugate", "numpy.conj", "numpy.conjugate") for c in ast.walk(x))
-        part = [s for s in ast.walk(x) if isinstance(s, ast.Subscript) and isinstance(s.value, ast.Call) and astq.callee_name(prog, w, s.value) in ("numpy.linalg.svd", "scipy.linalg.svd") and isinstance(s.slice, ast.Constant)]
-        which = part[0].slice.value if part else None
-        for p in part:
-            svd_calls.add(astq.dump(p.value))
-        el = astq.index_elts(st.targets[0])
-        line_first = 1 <= len(el) <= 3 and not isinstance(el[0], ast.Slice) and all(astq.is_full_slice(e) or (isinstance(e, ast.Constant) and e.value is Ellipsis) for e in el[1:])
-        ok = which == 0 and has_T and has_conj and line_first
-        layout = "rows" if (which == 0 and has_T) or (which == 2 and not has_T) else "cols"
-        run.ob("R-vector", w.qual, "stored vectors = conj(U)^T of the line's svd (vector k in row k)", ok,
-               f"`{astq.src(st.targets[0])} = {astq.src(x, 70)}` (svd part {which}, transposed {has_T}, conjugated {has_conj})", f"part{which} T={has_T} conj={has_conj}", file=fw, node=st)
+    if vec is None:
+        run.ob("R-vector", w.qual, "stored vectors = conj(U)^T of the line's svd (vector k in row k)", None, "layout of the returned vector array not recognised", file=fw, node=rnode)
     else:
-        run.ob("R-vector", w.qual, "vector store", None, "store into the returned vector array not found", file=fw)
-    if val_name in stores:
-        st = stores[val_name][0]
-        x = astq.expr_at(w, st, st.value)
-        part = [s for s in ast.walk(x) if isinstance(s, ast.Subscript) and isinstance(s.value, ast.Call) and astq.callee_name(prog, w, s.value) in ("numpy.linalg.svd", "scipy.linalg.svd") and isinstance(s.slice, ast.Constant)]
-        which = part[0].slice.value if part else None
-        for p in part:
-            svd_calls.add(astq.dump(p.value))
-        mono = True
-        for c in ast.walk(x):
-            if isinstance(c, ast.Call):
-                nm = astq.callee_name(prog, w, c)
-                if nm not in ("numpy.diag", "numpy.sqrt", "numpy.linalg.svd", "scipy.linalg.svd", "numpy.abs", "numpy.real"):
-                    mono = False
-        ok = which == 1 and mono
-        run.ob("R-vector", w.qual, "stored values = singular values (or their square roots) on the diagonal", ok, f"`{astq.src(x, 80)}`", astq.src(x, 70), file=fw, node=st)
+        roles = vec.roles
+        is_left = vec.part == 0 and not vec.swapped
+        known = set(roles) == {"vec", "comp", "line"} and len(roles) == 3
+        if vec.part is not None and not is_left:
+            ok = False          # right singular vectors / decomposition of the transposed matrices: not the left singular vectors at all
+        else:
+            ok = None if (vec.part is None or not known) else (vec.conj and roles[:2] == ("vec", "comp"))
+        layout = "rows" if known and roles.index("vec") < roles.index("comp") else ("cols" if known else None)
+        why = f"returned vector array: axes {roles}, " + (f"part {vec.part} of the decomposition" if vec.part is not None else "origin unknown") + f", conjugated {vec.conj}" + \
+            (", of the TRANSPOSED matrices" if vec.swapped else "")
+        run.ob("R-vector", w.qual, "stored vectors = conj(U)^T of the line's svd (vector k in row k)", ok, why, f"part{vec.part} axes={roles} conj={vec.conj}", file=fw, node=rnode)
+    if val is None:
+        run.ob("R-vector", w.qual, "stored values = singular values (or their square roots) on the diagonal", None, "layout of the returned value array not recognised", file=fw, node=rnode)
+    else:
+        okv = None if val.part is None else (val.part == 1 and val.mono and not val.swapped)
+        run.ob("R-vector", w.qual, "stored values = singular values (or their square roots) on the diagonal", okv,
+               f"returned value array: axes {val.roles}, part {val.part} of the decomposition, monotone image {val.mono}", f"part{val.part} mono={val.mono}", file=fw, node=rnode)
+    n_svd = 0
     for c in ast.walk(w.node):
         if isinstance(c, ast.Call) and astq.callee_name(prog, w, c) in ("numpy.linalg.svd", "scipy.linalg.svd"):
+            n_svd += 1
             h = astq.kwarg(c, "hermitian", 3)
             okh = h is None or (isinstance(h, ast.Constant) and h.value is False)
             run.ob("R-vector", w.qual, "general SVD of the line's matrix (no Hermitian shortcut: half spectra / correlogram spectra are not Hermitian)", okh,
                    f"`{astq.src(c, 70)}`", witness=astq.src(h, 40) if h is not None else "", file=fw, node=c)
-    run.ob("R-vector", w.qual, "values and vectors come from the same svd call", len(svd_calls) == 1, f"{len(svd_calls)} distinct svd call(s)", str(len(svd_calls)), file=fw, node=w.node)
-    # moveaxis(line axis 0 -> 2) for both returned arrays
-    rx = [astq.expr_at(w, rets[-1], e) for e in rets[-1].value.elts[:2]]
-    def mv(x):
-        """True if x = moveaxis(A, 0, last) of a 3-d array; False if another move; None if not a moveaxis call"""
-        if not (isinstance(x, ast.Call) and astq.callee_name(prog, w, x) == "numpy.moveaxis"):
-            return None
-        s_, d_ = astq.kwarg(x, "source", 1), astq.kwarg(x, "destination", 2)
-        if not (isinstance(s_, ast.Constant) and isinstance(d_, (ast.Constant, ast.UnaryOp))):
-            return None
-        try:
-            dv = ast.literal_eval(d_)
-        except Exception:
-            return None
-        return s_.value == 0 and dv in (2, -1)
-    mvs = [mv(x) for x in rx]
-    okmv = False if any(m is False for m in mvs) else (None if any(m is None for m in mvs) else True)
-    run.ob("R-vector", w.qual, "line axis moved last for values and vectors alike", okmv, f"returns `{astq.src(rets[-1].value.elts[0])}`, `{astq.src(rets[-1].value.elts[1])}` via moveaxis(.., 0, 2)" if okmv else "returned arrays are not both moveaxis(.., 0, 2)",
-               "layout", file=fw, node=rets[-1])
+    same = None
+    if val is not None and vec is not None and val.origin is not None and vec.origin is not None:
+        same = val.origin == vec.origin
+    elif n_svd == 0:
+        same = False
+    run.ob("R-vector", w.qual, "values and vectors come from the same svd call", same,
+           "one decomposition feeds both returned arrays" if same else ("the two returned arrays stem from different decompositions" if same is False else "origin of the returned arrays not recognised"),
+           "origin", file=fw, node=w.node)
+    okmv = None
+    if val is not None and vec is not None:
+        okmv = val.roles[-1:] == ("line",) and vec.roles[-1:] == ("line",)
+    run.ob("R-vector", w.qual, "line axis moved last for values and vectors alike", okmv,
+           f"value axes {val.roles if val is not None else '?'}, vector axes {vec.roles if vec is not None else '?'}", "layout", file=fw, node=rnode)
     # readers
     bell = prog.func("functions.fdd.SDOF_bellandMS")
     allreads = list(reads)
@@ -213,7 +198,7 @@ def writer_reader(prog, run, reads):
         seen.add(key)
         rows_form = astq.is_full_slice(el[1]) and not isinstance(el[0], ast.Slice)
         cols_form = astq.is_full_slice(el[0]) and not isinstance(el[1], ast.Slice)
-        ok = (layout == "rows" and rows_form) or (layout == "cols" and cols_form)
+        ok = None if layout is None else ((layout == "rows" and rows_form) or (layout == "cols" and cols_form))
         run.ob("R-vector", rf.qual, "reader takes vector k as S_vec[k, :, line]" if layout != "cols" else "reader takes vector k as S_vec[:, k, line]", ok,
                f"`{astq.src(sub)}` with vectors stored in {layout}", astq.src(sub), file=rel(prog.mods[rf.mod].path), node=sub, config=astq.src(sub))
 
